@@ -295,7 +295,13 @@ fn part(tier: Tier) -> Part {
     let (f1, f) = match BufCfg::Fake(4608).sizes() {
         Ok(x) => x,
         Err(e) => {
-            p.machinery.push(e);
+            // the probe is one ordinary 4-packet message on a healthy channel: a process that
+            // dies sending or receiving it is a finding, not an engine problem
+            if e.contains("died") {
+                p.fail(format!("sending/receiving one 4-packet message killed the process ({})", e), json!({"probe": "sizes", "buf": "Fake(4608)"}));
+            } else {
+                p.machinery.push(e);
+            }
             return p;
         },
     };
@@ -335,7 +341,11 @@ fn part(tier: Tier) -> Part {
             let sz = match b.sizes() {
                 Ok(x) => x,
                 Err(e) => {
-                    machinery.push(e);
+                    if e.contains("died") {
+                        p.fail(format!("sending/receiving one 4-packet message killed the process ({}) with {:?}", e, b), json!({"probe": "sizes", "buf": b}));
+                    } else {
+                        machinery.push(e);
+                    }
                     continue;
                 },
             };
